@@ -58,6 +58,9 @@ RULE = (
     "exception} x {no answer on the event stream, the answer before / at the same instant as / after the POST completion, whole or cut} x "
     "three tie orders, each followed by two more requests on the same session (a stalled reader or sender shows there; the exit is late "
     "enough for every synthesised timeout, so a hang is a missing terminal, not a machinery timeout); "
+    "round 7: the event stream silent for 2x / 3x+1 / 10x every interval-like number of SSEParameters (timeout, keep_alive_interval, reconnect_delay) "
+    "and the connection cap, under default, small, zero and very large values of those parameters (every field of SSEParameters set at least once), "
+    "after nothing / a comment line / `event: keepalive` / `event: ping`; then server messages arrive and requests are answered on the stream; "
     "round 6: the scripted HTTP transport enforces the client's read timeout like a real one (a POST the server accepts and never answers, mode "
     "posthang, in every mode list); absolute announcements on another host / port / scheme / host spelling (localhost vs 127.0.0.1) with the oracle "
     "that every POST goes to the announced absolute URL; ids keyed by value AND JSON type, a message bearing the twin id (7 vs \"7\") arriving while "
@@ -649,7 +652,7 @@ class Sizes(Base):
     def cases(self, ctx, budget):
         rng = ctx.sub_rng("c12-h3", budget)
         return G.decorate(G.size_cases(budget, rng) + G.collision_cases(budget, rng) + G.environment_cases(budget, rng)
-                          + G.twin_id_cases(budget, rng), self.name)
+                          + G.twin_id_cases(budget, rng) + G.silence_cases(budget, rng), self.name)
 
     def oracle(self, case, o):
         if o.get("harness_errors"):
